@@ -176,6 +176,20 @@ var c19Components = []struct {
 		}
 		return "AM"
 	}},
+	{"[PNn]", func(c civil) string {
+		if c.H >= 12 {
+			return "Pm"
+		}
+		return "Am"
+	}},
+	{"[Pn]", func(c civil) string {
+		if c.H >= 12 {
+			return "pm"
+		}
+		return "am"
+	}},
+	{"[Mn]", func(c civil) string { return strings.ToLower(monthNames[c.M]) }},
+	{"[FN]", func(c civil) string { return strings.ToUpper(dayNames[c.Wd]) }},
 	{"[m]", func(c civil) string { return fmt.Sprintf("%02d", c.Mi) }},
 	{"[m01]", func(c civil) string { return fmt.Sprintf("%02d", c.Mi) }},
 	{"[m1]", func(c civil) string { return fmt.Sprint(c.Mi) }},
